@@ -143,6 +143,19 @@ Definition g_F1 (steps : list step) (rep_at : option nat) : bool :=
 
 Definition both (p : step -> bool) (a b : step) : bool := p a && p b.
 
+(** the two look-ups use the same key (a finding about what the key lacks shows only then) *)
+Definition step_key (fx : fixes) (H : string -> string) (s : step) : option string :=
+  cache_key fx H (st_ho s) (st_vo s) (st_inst s) (st_req s).
+
+Definition same_key (fx : fixes) (H : string -> string) (a b : step) : bool :=
+  match step_key fx H a, step_key fx H b with
+  | Some x, Some y => String.eqb x y
+  | _, _ => false
+  end.
+
+Definition keyed (fx : fixes) (H : string -> string) (p : step -> step -> bool) (a b : step) : bool :=
+  same_key fx H a b && p a b.
+
 Definition is_kind (k : kind) (s : step) : bool := kind_eqb (i_kind (st_inst s)) k && enabled (st_inst s).
 
 (** C11-F2: the same token at two introspection instances of one endpoint whose scope or audience assertions differ *)
@@ -151,7 +164,7 @@ Definition p_F2 (a b : step) : bool :=
   ep_eqb (eff_ep (st_inst a)) (eff_ep (st_inst b)) &&
   negb (strs_eqb (i_scopes (st_inst a)) (i_scopes (st_inst b)) && strs_eqb (i_aud (st_inst a)) (i_aud (st_inst b))).
 
-Definition g_F2 (steps : list step) : bool := exists_pair p_F2 steps.
+Definition g_F2 (fx : fixes) (H : string -> string) (steps : list step) : bool := exists_pair (keyed fx H p_F2) steps.
 
 (** C11-F10: the same session value at two generic authenticators on one endpoint of which only one
     asserts the session lifespan (the key has no mechanism id, a hit returns before the assertion) *)
@@ -160,7 +173,7 @@ Definition p_F10 (a b : step) : bool :=
   ep_eqb (eff_ep (st_inst a)) (eff_ep (st_inst b)) &&
   negb (Bool.eqb (i_session (st_inst a)) (i_session (st_inst b))).
 
-Definition g_F10 (steps : list step) : bool := exists_pair p_F10 steps.
+Definition g_F10 (fx : fixes) (H : string -> string) (steps : list step) : bool := exists_pair (keyed fx H p_F10) steps.
 
 Definition rendered_eqb (a b : option (alist * string)) : bool :=
   match a, b with
@@ -175,7 +188,7 @@ Definition p_F3 (a b : step) : bool :=
   String.eqb (q_sub_json (st_req a)) (q_sub_json (st_req b)) &&
   negb (list_eqb expr_eqb (i_exprs (st_inst a)) (i_exprs (st_inst b))).
 
-Definition g_F3 (steps : list step) : bool := exists_pair p_F3 steps.
+Definition g_F3 (fx : fixes) (H : string -> string) (steps : list step) : bool := exists_pair (keyed fx H p_F3) steps.
 
 Definition opt_fields (fx : fixes) (H : string -> string) (s : step) : list fld :=
   if enabled (st_inst s) then
@@ -227,7 +240,7 @@ Definition p_F6 (a b : step) : bool :=
         | _ => true
         end).
 
-Definition g_F6 (steps : list step) : bool := exists_pair p_F6 steps.
+Definition g_F6 (fx : fixes) (H : string -> string) (steps : list step) : bool := exists_pair (keyed fx H p_F6) steps.
 
 Definition ep_uses_outputs (e : ep) : bool :=
   uses_outputs (e_url e) || existsb (fun kt => uses_outputs (snd kt)) (e_headers e).
@@ -243,7 +256,7 @@ Definition templated (s : step) : bool :=
 Definition p_F7 (a b : step) : bool :=
   both templated a b && negb (alist_eqb (q_outputs (st_req a)) (q_outputs (st_req b))).
 
-Definition g_F7 (steps : list step) : bool := exists_pair p_F7 steps.
+Definition g_F7 (fx : fixes) (H : string -> string) (steps : list step) : bool := exists_pair (keyed fx H p_F7) steps.
 
 (* ------------------------------------------------------------------ well-formed inputs *)
 
@@ -302,8 +315,8 @@ Definition components (s : step) : option comps :=
   let i := st_inst s in
   let q := st_req s in
   match i_kind i with
-  | KIntro => Some {| kc_kind := KIntro; kc_ep := eff_ep i; kc_strs := [q_cred q]; kc_vals := [] |}
-  | KGen => Some {| kc_kind := KGen; kc_ep := eff_ep i; kc_strs := [q_cred q]; kc_vals := [] |}
+  | KIntro => Some {| kc_kind := KIntro; kc_ep := eff_ep i; kc_strs := [q_cred q; ttl_hash (i_ttl i)]; kc_vals := [] |}
+  | KGen => Some {| kc_kind := KGen; kc_ep := eff_ep i; kc_strs := [q_cred q; ttl_hash (Some (ttl_val i))]; kc_vals := [] |}
   | KRemote =>
     match rendered i q with
     | None => None
